@@ -2,6 +2,7 @@
 import glob
 import json
 import os
+import re
 import time
 
 from vlib import common, archgen
@@ -11,7 +12,9 @@ AREA = archgen.AREA
 PROPS_MODULE = "MorfuseModel.Props.C11"
 PROPS_FILE = os.path.join(LEAN, "MorfuseModel", "Props", "C11.lean")
 DETECT = ("hdr", "tag", "ver", "size", "cls")        # a substitution here must be reported
-DAMAGE = ("len", "name", "ncls", "idx")              # here only "no crash, nothing outside the objects"
+DAMAGE = ("len", "name", "ncls", "idx", "pcls")      # here only "no crash, nothing outside the objects"
+# pcls: class-name characters of a record that is read with the polymorphic ReadObject(): the reader has no
+# expected class to compare with (a name damaged into another registered name yields an object of that class)
 
 TRUSTED = [
     "Lean 4.33.0 kernel (lake build; leanchecker in the thorough tier)",
@@ -31,6 +34,8 @@ ASSUME = [
     "substitutions inside payload bytes (values, string characters) cannot be detected by this format and are outside the statement; "
     "damage to length / count / index / archive-name fields is only required to be safe, not detected",
     "Listener flag bytes are not damaged (a set bit makes Listener::Archive read con::set tables, which is outside Archiver.cpp)",
+    "class-name bytes of a record read with the polymorphic ReadObject() are only required to be safe: that reader has no "
+    "expected class (a name damaged into another registered name yields an object of that class, visible to the caller)",
 ]
 
 
@@ -85,12 +90,16 @@ class Runner:
         if impl == "SKIPPED":
             return None
         if impl.startswith("CRASH"):
-            if pc in ("idx", "multi+idx") and model.startswith("ok"):
+            # …or stopped with a reported error raised by *another* damaged byte of the same probe: the destructor
+            # still runs the fix-ups that were queued with the in-range index (crash inside the fix-up pass only)
+            fixup_pass = re.search(r"@(mfuse::)?(SafePtrBase::(AddReference|RemoveReference|InitSafePtr)|Archiver::Close)", impl)
+            if pc in ("idx", "multi+idx") and (model.startswith("ok") or (
+                    pc == "multi+idx" and fixup_pass and not model.startswith("UB:") and model != "InvalidObjectIndex")):
                 # the damaged index is still inside the object table: the format has no type information, a pointer
                 # then resolves to an object of another type (see notes/C11-findings.md F7)
                 return ("violation", "crash:index-damage-in-range",
-                        "an index field was changed to another index inside the table; the reader completed (model: %s) "
-                        "and a pointer resolved to an object of the wrong type: %s" % (model[:40], impl[6:]))
+                        "an index field was changed to another index inside the table; the reader went on (model: %s) "
+                        "and the fix-up pass resolved a pointer to an object of the wrong type: %s" % (model[:40], impl[6:]))
             return "violation", "crash:" + impl[6:], "the reader crashed / sanitizer report (%s)" % impl[6:]
         completed = impl.startswith("ok")
         if kind == "cut" and completed:
@@ -259,6 +268,10 @@ def fixed_archives():
          [("p", "u8", 1), ("s", b"Test string"), li(1), ("sp", 1), ("op", 1), ("sp", 2), ("op", 2), li(2), ("op", 0),
           ("pos", 3), ("op", 3)]),
         ((2, b"MFUS", b""), [("obj", 1, b"VNode", [("op", 1), ("obj", 2, b"VNodf", []), ("s", b"")]), ("obj", 3, b"VNode", [])]),
+        # the same object records read with ReadObject<T>() and with the polymorphic ReadObject()
+        ((1, b"MFUS", b"x"), [("objp", 1, L, [("p", "u8", 0)]), ("objt", 2, L, [("p", "u8", 0)]), ("sp", 1),
+                              ("objt", 3, b"VNode", [("op", 1), ("objp", 4, L, [("p", "u8", 0)]), ("s", b"ab")]),
+                              ("objt", 5, b"VNodf", [("sp", 5)])]),
         ((1, b"MFUS", b"x"), []),
     ]
 
@@ -288,7 +301,8 @@ def check(ctx):
                 break
             big = rng.random() < 0.15
             nit = rng.choice([30, 80, 200]) if big else rng.choice([1, 3, 6, 10, 16])
-            items = archgen.gen_case(rng, nit, nobj=rng.randint(0, 30 if big else 6), maxstr=40, dangling=0.03)
+            items = archgen.gen_case(rng, nit, nobj=rng.randint(0, 30 if big else 6), maxstr=40, dangling=0.03,
+                                     poly_scripted=False)
             info = archgen.gen_info(rng)
         r.probe_archive(info, items, rng, exhaustive_positions=(30 if quick else 120) if big else 400,
                         ndamage=20 if quick else 40, nmulti=20 if quick else 60)
